@@ -56,7 +56,9 @@ MergeShapes == <<
     VP(Some([NoVD EXCEPT !.id = Some(0), !.label = Some(0)]), None, Pos1, Some(1)),  \* 15 another present-but-empty descriptor, no trip
     VP(Some(VDid(3)), Some(Tnoid), Pos1, None),                             \* 16 v3 + a trip identified without trip_id (route, direction, start time and date)
     TU(Tnoid, None, <<Stu(Some(1), Some(2), None, Some(2))>>),              \* 17 own entity of that trip
-    AL(3, <<[NoSel EXCEPT !.trip = Some(T1)], [NoSel EXCEPT !.trip = Some(T2)], [NoSel EXCEPT !.trip = Some(Tnoid)]>>)   \* 18 one alert naming three trips
+    AL(3, <<[NoSel EXCEPT !.trip = Some(T1)], [NoSel EXCEPT !.trip = Some(T2)], [NoSel EXCEPT !.trip = Some(Tnoid)]>>),  \* 18 one alert naming three trips
+    TU([NoTD EXCEPT !.id = Some(2), !.st = Some([h |-> 24, m |-> 10, s |-> 0, ok |-> TRUE])], None, <<Stu(Some(1), Some(1), Some(1), None)>>),   \* 19 t1 at 24:10:00
+    TU([NoTD EXCEPT !.id = Some(2), !.st = Some([h |-> 24, m |-> 40, s |-> 0, ok |-> TRUE])], Some(VDid(3)), <<>>)                             \* 20 t1 at 24:40:00
 >>
 
 SeqOfSet(S) == SortSet(S, LAMBDA a, b : a < b)
@@ -75,6 +77,10 @@ SelPool == <<
     [NoSel EXCEPT !.route = Some(2), !.dir = Some(1)],
     [NoSel EXCEPT !.rtype = Some(1)],
     [NoSel EXCEPT !.rtype = Some(99)],                        \* unknown route type: informs nothing
+    [NoSel EXCEPT !.rtype = Some(8)],                         \* 8, 9, 10 are not route types either
+    [NoSel EXCEPT !.rtype = Some(10), !.route = Some(1)],
+    [NoSel EXCEPT !.rtype = Some(12)],                        \* monorail
+    [NoSel EXCEPT !.rtype = Some(11), !.stop = Some(1)],      \* trolleybus
     [NoSel EXCEPT !.stop = Some(1)],
     [NoSel EXCEPT !.dir = Some(0)],                           \* a direction alone informs nothing
     NoSel,
@@ -88,6 +94,9 @@ SelPool == <<
     [NoSel EXCEPT !.trip = Some(TDfull(1, 1))],
     [NoSel EXCEPT !.trip = Some(TDfull(1, 0))],
     [NoSel EXCEPT !.trip = Some(TDnoDate(2, 0))],
+    [NoSel EXCEPT !.trip = Some([TDfull(2, 1) EXCEPT !.st = Some([h |-> 0, m |-> 0, s |-> 0, ok |-> TRUE])])],   \* identifiable, starts at midnight
+    [NoSel EXCEPT !.route = Some(1), !.trip = Some(TDr(1))],                 \* explicit route and a route-only descriptor in one selector
+    [NoSel EXCEPT !.route = Some(2), !.trip = Some(TDrd(1, 0))],
     [NoSel EXCEPT !.trip = Some(TDrd(2, 0)), !.stop = Some(2)],   \* partly useful: stop + route-only descriptor
     [NoSel EXCEPT !.trip = Some(NoTD)],
     [NoSel EXCEPT !.route = Some(1), !.trip = Some(TDid(2)), !.agency = Some(1), !.stop = Some(1), !.rtype = Some(3), !.dir = Some(1)]
